@@ -37,7 +37,8 @@ def gen_frame(rng):
         elif rng.random() < 0.75:
             rep, cat = 0, "expected"
         else:
-            rep, cat = 0, rng.choice(["unexpected", "non-modeled: blocklisted"])
+            # units outside the model; some of them fully reporting (they are still not fitting rows)
+            rep, cat = rng.choice([0, 0, 1]), rng.choice(["unexpected", "non-modeled: blocklisted"])
         r = {"reporting": rep, "unit_category": cat, "geographic_unit_fips": f"u{i}",
              "feat_a": round(rng.uniform(0, 1), 3), "feat_b": round(rng.gauss(0, 1), 3), "baseline_normalized_margin": round(rng.uniform(-0.5, 0.5), 3)}
         for fe in LEVELS:
